@@ -807,4 +807,685 @@ func (c crypter) badSecretPacket(h *Header, b []byte) *Packet {
 // BadSecretErr ...
 `}}})
 
+	addMutant(Mutant{Name: "c14-connection-counter-lowered-only-by-the-connection-loop", Props: []string{"C14"}, Rule: "R-SLOT", KeySub: "slot-returned:inflight",
+		Why: "a connection limit kept as an atomic counter, raised in the accept loop and lowered by a defer in the connection loop only: a connection the secret provider refuses never lowers it",
+		Edits: []Edit{
+			{File: "server.go", Old: `
+// Server  ...
+type Server struct {
+	loggerProvider
+	waitGroup
+	SecretProvider
+`, New: `
+// Server  ...
+type Server struct {
+	inflight int64
+	loggerProvider
+	waitGroup
+	SecretProvider
+`},
+			{File: "server.go", Old: `				serveAcceptedError.Inc()
+				continue
+			}
+			s.Add(1)
+			go s.serve(ctx, conn)
+		}
+`, New: `				serveAcceptedError.Inc()
+				continue
+			}
+			if atomic.AddInt64(&s.inflight, 1) > 1024 {
+				atomic.AddInt64(&s.inflight, -1)
+				conn.Close()
+				continue
+			}
+			s.Add(1)
+			go s.serve(ctx, conn)
+		}
+`},
+			{File: "server.go", Old: `
+// handle will process connections on a net.Conn. This is meant to be executed in a goroutine
+func (s *Server) handle(ctx context.Context, c *crypter, h Handler) {
+	// defer closing the connection on return.
+	defer c.Close()
+	// scoped to the entire undelrying net.Conn.  this is needed for single-connect
+`, New: `
+// handle will process connections on a net.Conn. This is meant to be executed in a goroutine
+func (s *Server) handle(ctx context.Context, c *crypter, h Handler) {
+	defer atomic.AddInt64(&s.inflight, -1)
+	// defer closing the connection on return.
+	defer c.Close()
+	// scoped to the entire undelrying net.Conn.  this is needed for single-connect
+`}}})
+
+	addMutant(Mutant{Name: "benign-connection-counter-lowered-by-the-goroutine", Props: []string{"C07", "C09", "C14", "C15", "C17", "C20"}, Rule: "", KeySub: "", Benign: true,
+		Why: "the same counter lowered by a defer first thing in the connection goroutine",
+		Edits: []Edit{
+			{File: "server.go", Old: `
+// Server  ...
+type Server struct {
+	loggerProvider
+	waitGroup
+	SecretProvider
+`, New: `
+// Server  ...
+type Server struct {
+	inflight int64
+	loggerProvider
+	waitGroup
+	SecretProvider
+`},
+			{File: "server.go", Old: `				serveAcceptedError.Inc()
+				continue
+			}
+			s.Add(1)
+			go s.serve(ctx, conn)
+		}
+`, New: `				serveAcceptedError.Inc()
+				continue
+			}
+			if atomic.AddInt64(&s.inflight, 1) > 1024 {
+				atomic.AddInt64(&s.inflight, -1)
+				conn.Close()
+				continue
+			}
+			s.Add(1)
+			go s.serve(ctx, conn)
+		}
+`},
+			{File: "server.go", Old: `
+func (s *Server) serve(ctx context.Context, conn net.Conn) {
+	defer s.Done()
+	timer := prometheus.NewTimer(prometheus.ObserverFunc(func(v float64) {
+		ms := v * 1000 // make milliseconds
+		connectionDuration.Observe(ms)
+`, New: `
+func (s *Server) serve(ctx context.Context, conn net.Conn) {
+	defer s.Done()
+	defer atomic.AddInt64(&s.inflight, -1)
+	timer := prometheus.NewTimer(prometheus.ObserverFunc(func(v float64) {
+		ms := v * 1000 // make milliseconds
+		connectionDuration.Observe(ms)
+`}}})
+
+	addMutant(Mutant{Name: "benign-evaluator-with-named-decision-function-and-match-helper", Props: []string{"C11"}, Rule: "", KeySub: "", Benign: true,
+		Why: "the command evaluator calls a package function permits(action) and a matchCommandArgs helper returning (matched, ok)",
+		Edits: []Edit{
+			{File: "cmds/server/config/authorizers/stringy/command.go", Old: `
+func (a CommandBasedAuthorizer) evaluate() bool {
+	cmd := a.body.Args.Command()
+	returnBool := func(c config.Action) bool {
+		switch c {
+		case config.PERMIT:
+			return true
+		default:
+			return false
+		}
+	}
+	for _, c := range a.user.Commands {
+		// trim into locals only; the rules are shared by every request of this user
+		c.Name = strings.TrimSpace(c.Name)
+		if c.Name == "*" {
+			// special condition of allow anything
+			return returnBool(c.Action)
+		}
+		if c.Name != cmd {
+			continue
+		}
+		if len(c.Match) == 0 {
+			// cmd matches, but we have no conditions, so match it
+			return returnBool(c.Action)
+		}
+
+		for _, regexish := range c.Match {
+			regexish = strings.TrimSpace(regexish)
+			if len(regexish) == 0 {
+				continue
+			}
+			// anchor the whole expression to the start and end of the string; the group keeps
+			// the anchors outside of any alternation the expression may contain
+			regexish = regexStartStr + "(?:" + regexish + ")" + regexEndStr
+			if matched, err := regexp.MatchString(regexish, a.body.Args.CommandArgsNoLE()); err != nil {
+				a.Errorf(a.ctx, "bad regex detected; %v", err)
+				return false
+			} else if matched {
+				return returnBool(c.Action)
+			}
+		}
+	}
+	return false
+}
+`, New: `
+func (a CommandBasedAuthorizer) evaluate() bool {
+	cmd := a.body.Args.Command()
+	for _, rule := range a.user.Commands {
+		// trim into locals only; the rules are shared by every request of this user
+		name := strings.TrimSpace(rule.Name)
+		if name == "*" {
+			// special condition of allow anything
+			return permits(rule.Action)
+		}
+		if name != cmd {
+			continue
+		}
+		if len(rule.Match) == 0 {
+			// cmd matches, but we have no conditions, so match it
+			return permits(rule.Action)
+		}
+		matched, ok := a.matchCommandArgs(rule.Match)
+		if !ok {
+			return false
+		}
+		if matched {
+			return permits(rule.Action)
+		}
+	}
+	return false
+}
+
+// permits translates the action of the rule that decided the request into the verdict
+func permits(action config.Action) bool {
+	switch action {
+	case config.PERMIT:
+		return true
+	default:
+		return false
+	}
+}
+
+// matchCommandArgs reports if any of the regex expressions of a rule matches the command args of
+// the request.  ok is false if a bad expression was met, which ends the evaluation.
+func (a CommandBasedAuthorizer) matchCommandArgs(expressions []string) (matched, ok bool) {
+	for _, regexish := range expressions {
+		regexish = strings.TrimSpace(regexish)
+		if len(regexish) == 0 {
+			continue
+		}
+		// anchor the whole expression to the start and end of the string; the group keeps
+		// the anchors outside of any alternation the expression may contain
+		regexish = regexStartStr + "(?:" + regexish + ")" + regexEndStr
+		found, err := regexp.MatchString(regexish, a.body.Args.CommandArgsNoLE())
+		if err != nil {
+			a.Errorf(a.ctx, "bad regex detected; %v", err)
+			return false, false
+		}
+		if found {
+			return true, true
+		}
+	}
+	return false, true
+}
+`},
+			{File: "cmds/server/config/authorizers/stringy/session.go", Old: `// serviceMatcherModifier matches incoming attribute value pairs from the client against our config
+func (sa SessionBasedAuthorizer) serviceMatcherModifier(args []string, c config.Service) ([]string, bool) {
+	avps := make([]string, 0, len(c.SetValues))
+	collateAVPs := func(s ...config.Service) ([]string, bool) {
+		// optional here represents ` + "`" + `*` + "`" + ` per the rfc
+		optional := false
+		unfiltered := make([]string, 0, len(c.SetValues))
+		for _, v := range c.SetValues {
+			if v.Optional {
+				// detected an optional
+				optional = true
+			}
+			unfiltered = append(unfiltered, v.String())
+		}
+		return unfiltered, optional
+	}
+
+	// Optional arguments are ones that may be disregarded by either
+	// client or server.  Mandatory arguments require that the receiving
+`, New: `// serviceMatcherModifier matches incoming attribute value pairs from the client against our config
+func (sa SessionBasedAuthorizer) serviceMatcherModifier(args []string, c config.Service) ([]string, bool) {
+	avps := make([]string, 0, len(c.SetValues))
+
+	// Optional arguments are ones that may be disregarded by either
+	// client or server.  Mandatory arguments require that the receiving
+`},
+			{File: "cmds/server/config/authorizers/stringy/session.go", Old: `		// we dedupe in a higher call, but no additional changes are made.  A vast majority of config
+		// can easily be built this way, but will often result in sending too many arguments back to
+		// the client.  The use of the optional setting for values becomes very important in this circumstance
+		if len(c.Match) == 0 {
+			unfiltered, isOptional := collateAVPs(c)
+			if isOptional {
+				optional = true
+			}
+			avps = append(avps, unfiltered...)
+			continue
+		}
+		// if serviceMatcher is used, then we have match conditions we must evaluate.  These conditions exist
+		// within the args that the client sent to us or args that this handler may have injected.  We may send
+		// back more args that what they asked, as in scenarios where cmd= or cmd* is requested.
+		if sa.serviceMatcher(args, c.Match) {
+			unfiltered, isOptional := collateAVPs(c)
+			if isOptional {
+				optional = true
+			}
+			avps = append(avps, unfiltered...)
+		}
+	}
+	return avps, optional
+}
+
+// serviceMatcher will evaluate the args sent in a request to see if any matches exist with
+// a Service type attached to the user.  This func simply identifies if we match on the conditions
+// provided.
+`, New: `		// we dedupe in a higher call, but no additional changes are made.  A vast majority of config
+		// can easily be built this way, but will often result in sending too many arguments back to
+		// the client.  The use of the optional setting for values becomes very important in this circumstance
+		//
+		// if serviceMatcher is used, then we have match conditions we must evaluate.  These conditions exist
+		// within the args that the client sent to us or args that this handler may have injected.  We may send
+		// back more args that what they asked, as in scenarios where cmd= or cmd* is requested.
+		if len(c.Match) != 0 && !sa.serviceMatcher(args, c.Match) {
+			continue
+		}
+		unfiltered, isOptional := collateAVPs(c.SetValues)
+		if isOptional {
+			optional = true
+		}
+		avps = append(avps, unfiltered...)
+	}
+	return avps, optional
+}
+
+// collateAVPs renders the values a service sets as avps and reports if any of them is optional
+func collateAVPs(setValues []config.Value) ([]string, bool) {
+	// optional here represents ` + "`" + `*` + "`" + ` per the rfc
+	optional := false
+	unfiltered := make([]string, 0, len(setValues))
+	for _, v := range setValues {
+		if v.Optional {
+			// detected an optional
+			optional = true
+		}
+		unfiltered = append(unfiltered, v.String())
+	}
+	return unfiltered, optional
+}
+
+// serviceMatcher will evaluate the args sent in a request to see if any matches exist with
+// a Service type attached to the user.  This func simply identifies if we match on the conditions
+// provided.
+`},
+			{File: "cmds/server/config/authorizers/stringy/stringy.go", Old: `	if a.user.Name != string(body.User) {
+		// this shouldn't really ever happen since this is scoped to this user, but we check nevertheless
+		a.Errorf(request.Context, "user in message body [%v] does not match scoped user: [%v]", body.User, a.user.Name)
+		stringyHandleAuthorizeFail.Inc()
+		response.Reply(
+			tq.NewAuthorReply(
+				tq.SetAuthorReplyStatus(tq.AuthorStatusFail),
+				tq.SetAuthorReplyServerMsg("not authorized"),
+			),
+		)
+		return
+	}
+
+`, New: `	if a.user.Name != string(body.User) {
+		// this shouldn't really ever happen since this is scoped to this user, but we check nevertheless
+		a.Errorf(request.Context, "user in message body [%v] does not match scoped user: [%v]", body.User, a.user.Name)
+		replyNotAuthorized(response)
+		return
+	}
+
+`},
+			{File: "cmds/server/config/authorizers/stringy/stringy.go", Old: `	}
+
+	a.Debugf(request.Context, "failed to authorize the user: [%v]", a.user.Name)
+	stringyHandleAuthorizeFail.Inc()
+	response.Reply(
+		tq.NewAuthorReply(
+`, New: `	}
+
+	a.Debugf(request.Context, "failed to authorize the user: [%v]", a.user.Name)
+	replyNotAuthorized(response)
+}
+
+// replyNotAuthorized counts the failure and sends the fail reply shared by the refusals of Handle
+func replyNotAuthorized(response tq.Response) {
+	stringyHandleAuthorizeFail.Inc()
+	response.Reply(
+		tq.NewAuthorReply(
+`}}})
+
+	addMutant(Mutant{Name: "benign-lookup-state-struct-with-admit-method", Props: []string{"C13", "C15", "C16"}, Rule: "", KeySub: "", Benign: true,
+		Why: "providers and filters bundled in a lookupState value handed to a named lookup goroutine; the filters are consulted by a value-receiver method of the bundle",
+		Edits: []Edit{
+			{File: "cmds/server/loader/loader.go", Old: `// get is a protected method that searches for a matching provider.  we first check the
+// remote connection should even be allowed.
+func (l Loader) get(ctx context.Context, providers []tq.SecretProvider, remote net.Addr) ([]byte, tq.Handler, error) {
+	for _, sp := range providers {
+		secret, handler, err := sp.Get(ctx, remote)
+		if err != nil || secret == nil || handler == nil {
+			l.Debugf(ctx, "remote [%v], %v", remote, err)
+			continue
+		}
+		secretKnown.Inc()
+		return secret, handler, err
+	}
+	secretUnknown.Inc()
+	return nil, nil, fmt.Errorf("remote [%v] has no secret providers", remote)
+}
+
+// updates is the protected update/query loop for Loader
+func (l *Loader) updates() {
+	var warm sync.Once
+	// providers lives here so as to remain protected from data race conditions on update/get
+	providers := []tq.SecretProvider{}
+	// prefix filters are here for the same reason, race condition protection
+	prefixDeny, prefixAllow := newPrefixFilter(nil), newPrefixFilter(nil)
+	for {
+		select {
+		case c := <-l.Config():
+			providers = l.build(c)
+			l.Infof(l.ctx, "updated all providers from config source")
+			prefixDeny, prefixAllow = l.createPrefixFilters(c)
+			l.Infof(l.ctx, "updated all prefix filters, where available, from config source")
+			buildUpdate.Inc()
+			// notify that we are warmed, but one time only
+			warm.Do(func() { close(l.warm) })
+		case q := <-l.query:
+			// the goroutine gets the values current at the time of the query; the variables
+			// themselves are reassigned by the update case above
+			go func(providers []tq.SecretProvider, prefixDeny, prefixAllow *prefixFilter) {
+				// prefixFilter will log to prom counters and also act as a quick fail for prefixes that do not pass
+				// muster.  this pevents unnecessary load on scanning SecretProviders
+				if prefixDeny.deny(q.remote) {
+					q.cb <- secretProvider{err: fmt.Errorf("remote address connection not allowed by prefixDeny filter [%v]", q.remote.String())}
+					close(q.cb)
+					return
+				}
+				if !prefixAllow.allow(q.remote) {
+					q.cb <- secretProvider{err: fmt.Errorf("remote address connection not allowed by prefixAllow filter [%v]", q.remote.String())}
+					close(q.cb)
+					return
+				}
+				secret, handler, err := l.get(q.ctx, providers, q.remote)
+				q.cb <- secretProvider{secret: secret, handler: handler, err: err}
+				close(q.cb)
+				buildGet.Inc()
+			}(providers, prefixDeny, prefixAllow)
+		}
+	}
+}
+
+// createPrefixFilters inits new filters based on config
+func (l *Loader) createPrefixFilters(c config.ServerConfig) (*prefixFilter, *prefixFilter) {
+	prefixDeny := newPrefixFilter(strToIPNet(c.PrefixDeny))
+`, New: `// get is a protected method that searches for a matching provider.  we first check the
+// remote connection should even be allowed.
+func (l Loader) get(ctx context.Context, providers []tq.SecretProvider, remote net.Addr) ([]byte, tq.Handler, error) {
+	for _, candidate := range providers {
+		secret, handler, err := candidate.Get(ctx, remote)
+		if err == nil && secret != nil && handler != nil {
+			secretKnown.Inc()
+			return secret, handler, err
+		}
+		l.Debugf(ctx, "remote [%v], %v", remote, err)
+	}
+	secretUnknown.Inc()
+	return nil, nil, fmt.Errorf("remote [%v] has no secret providers", remote)
+}
+
+// lookupState is what a query is answered from: the providers and the prefix filters built from
+// the most recent config.  It lives in the updates loop and is handed to each query goroutine by value.
+type lookupState struct {
+	providers   []tq.SecretProvider
+	prefixDeny  *prefixFilter
+	prefixAllow *prefixFilter
+}
+
+// admit runs remote past the prefix filters.  prefixFilter will log to prom counters and also act as a
+// quick fail for prefixes that do not pass muster.  this pevents unnecessary load on scanning SecretProviders
+func (s lookupState) admit(remote net.Addr) error {
+	switch {
+	case s.prefixDeny.deny(remote):
+		return fmt.Errorf("remote address connection not allowed by prefixDeny filter [%v]", remote.String())
+	case !s.prefixAllow.allow(remote):
+		return fmt.Errorf("remote address connection not allowed by prefixAllow filter [%v]", remote.String())
+	}
+	return nil
+}
+
+// updates is the protected update/query loop for Loader
+func (l *Loader) updates() {
+	var warm sync.Once
+	// providers and prefix filters live here so as to remain protected from data race conditions on update/get
+	current := lookupState{providers: []tq.SecretProvider{}, prefixDeny: newPrefixFilter(nil), prefixAllow: newPrefixFilter(nil)}
+	for {
+		select {
+		case c := <-l.Config():
+			current.providers = l.build(c)
+			l.Infof(l.ctx, "updated all providers from config source")
+			current.prefixDeny, current.prefixAllow = l.createPrefixFilters(c)
+			l.Infof(l.ctx, "updated all prefix filters, where available, from config source")
+			buildUpdate.Inc()
+			// notify that we are warmed, but one time only
+			warm.Do(func() { close(l.warm) })
+		case q := <-l.query:
+			// the goroutine gets the values current at the time of the query; the variable
+			// itself is reassigned by the update case above
+			go l.answer(q, current)
+		}
+	}
+}
+
+// answer runs one query against the state it was given and replies on the query's callback channel.
+func (l *Loader) answer(q queryGet, state lookupState) {
+	if err := state.admit(q.remote); err != nil {
+		q.reply(secretProvider{err: err})
+		return
+	}
+	secret, handler, err := l.get(q.ctx, state.providers, q.remote)
+	q.reply(secretProvider{secret: secret, handler: handler, err: err})
+	buildGet.Inc()
+}
+
+// createPrefixFilters inits new filters based on config
+func (l *Loader) createPrefixFilters(c config.ServerConfig) (*prefixFilter, *prefixFilter) {
+	prefixDeny := newPrefixFilter(strToIPNet(c.PrefixDeny))
+`},
+			{File: "cmds/server/loader/loader.go", Old: `	cb     chan secretProvider
+}
+
+// build is admittedly complex.  This is a design tradeoff for allowing a lot of dependency injection options that
+// also span an undefined number of config format representations.  Build glues all of these injected types together
+// into an internal representation that the server can use.  Build is best effort under all circumstances.  Injected
+`, New: `	cb     chan secretProvider
+}
+
+// reply sends the one answer a query gets and closes its callback channel
+func (q queryGet) reply(sp secretProvider) {
+	q.cb <- sp
+	close(q.cb)
+}
+
+// build is admittedly complex.  This is a design tradeoff for allowing a lot of dependency injection options that
+// also span an undefined number of config format representations.  Build glues all of these injected types together
+// into an internal representation that the server can use.  Build is best effort under all circumstances.  Injected
+`}}})
+
+	addMutant(Mutant{Name: "benign-mismatch-reply-body-from-a-helper", Props: []string{"C06", "C07", "C19"}, Rule: "", KeySub: "", Benign: true,
+		Why: "the per-type bad-secret reply comes from badSecretBody(t) (reply, ok) with one shared marshal path; response.Reply split into replySeqNo and copyToWriters",
+		Edits: []Edit{
+			{File: "crypt.go", Old: `}
+
+func (c crypter) badSecretReply(h *Header) (*Packet, error) {
+	var b []byte
+	var err error
+	switch h.Type {
+	case Authenticate:
+		b, err = NewAuthenReply(
+			SetAuthenReplyStatus(AuthenStatusError),
+			SetAuthenReplyServerMsg("bad secret"),
+		).MarshalBinary()
+		if err != nil {
+			crypterMarshalError.Inc()
+			return nil, err
+		}
+	case Authorize:
+		b, err = NewAuthorReply(
+			SetAuthorReplyStatus(AuthorStatusError),
+			SetAuthorReplyServerMsg("bad secret"),
+		).MarshalBinary()
+		if err != nil {
+			crypterMarshalError.Inc()
+			return nil, err
+		}
+	case Accounting:
+		b, err = NewAcctReply(
+			SetAcctReplyStatus(AcctReplyStatusError),
+			SetAcctReplyServerMsg("bad secret"),
+		).MarshalBinary()
+		if err != nil {
+			crypterMarshalError.Inc()
+			return nil, err
+		}
+	default:
+		return nil, fmt.Errorf("unknown header type [%v]", h.Type)
+	}
+	// reset some flags and state for this error reply.
+	// under error conditions it can be common in the rfc to reset the sequence to 1
+	// if the error is particularly egregious.  a bad secret seems like it fits and
+	// the rfc is unclear for this particular condition on what to do
+	h.SeqNo = SequenceNumber(1)
+	p := NewPacket(
+		SetPacketHeader(h),
+		SetPacketBody(b),
+	)
+	if err != nil {
+		return nil, err
+	}
+	return p, nil
+}
+
+// BadSecretErr ...
+`, New: `}
+
+func (c crypter) badSecretReply(h *Header) (*Packet, error) {
+	reply, ok := badSecretBody(h.Type)
+	if !ok {
+		return nil, fmt.Errorf("unknown header type [%v]", h.Type)
+	}
+	b, err := reply.MarshalBinary()
+	if err != nil {
+		crypterMarshalError.Inc()
+		return nil, err
+	}
+	// reset some flags and state for this error reply.
+	// under error conditions it can be common in the rfc to reset the sequence to 1
+	// if the error is particularly egregious.  a bad secret seems like it fits and
+	// the rfc is unclear for this particular condition on what to do
+	h.SeqNo = SequenceNumber(1)
+	return NewPacket(
+		SetPacketHeader(h),
+		SetPacketBody(b),
+	), nil
+}
+
+// badSecretBody gives the error reply that belongs to the header type t.  ok is false
+// when no reply body exists for t
+func badSecretBody(t HeaderType) (reply EncoderDecoder, ok bool) {
+	switch t {
+	case Authenticate:
+		return NewAuthenReply(
+			SetAuthenReplyStatus(AuthenStatusError),
+			SetAuthenReplyServerMsg("bad secret"),
+		), true
+	case Authorize:
+		return NewAuthorReply(
+			SetAuthorReplyStatus(AuthorStatusError),
+			SetAuthorReplyServerMsg("bad secret"),
+		), true
+	case Accounting:
+		return NewAcctReply(
+			SetAcctReplyStatus(AcctReplyStatusError),
+			SetAcctReplyServerMsg("bad secret"),
+		), true
+	}
+	return nil, false
+}
+
+// BadSecretErr ...
+`},
+			{File: "handlers.go", Old: `// all header values based on the underlying EncoderDecoder.  If you want total control on the
+// packet that is written, use Send instead.
+func (r *response) Reply(v EncoderDecoder) (int, error) {
+	seqNo := int(r.header.SeqNo)
+	// some special conditions for different body types
+	switch t := v.(type) {
+	case *AuthenReply:
+		if t.Status == AuthenStatusRestart {
+			seqNo = 1
+		} else {
+			seqNo++
+		}
+	default:
+		seqNo++
+	}
+	header := NewHeader(
+		SetHeaderVersion(r.header.Version),
+		SetHeaderType(r.header.Type),
+		SetHeaderSeqNo(seqNo),
+		SetHeaderFlag(r.header.Flags),
+		SetHeaderSessionID(r.header.SessionID),
+	)
+`, New: `// all header values based on the underlying EncoderDecoder.  If you want total control on the
+// packet that is written, use Send instead.
+func (r *response) Reply(v EncoderDecoder) (int, error) {
+	header := NewHeader(
+		SetHeaderVersion(r.header.Version),
+		SetHeaderType(r.header.Type),
+		SetHeaderSeqNo(replySeqNo(r.header.SeqNo, v)),
+		SetHeaderFlag(r.header.Flags),
+		SetHeaderSessionID(r.header.SessionID),
+	)
+`},
+			{File: "handlers.go", Old: `		SetPacketHeader(header),
+		SetPacketBody(b),
+	)
+	if pbytes, err := p.MarshalBinary(); err == nil {
+		for _, mw := range r.writers {
+			_, err := mw.Write(r.ctx, pbytes)
+			if err != nil {
+				r.Errorf(r.ctx, "unable to write to response writer; %v", err)
+			}
+		}
+	}
+	return r.Write(p)
+}
+
+// Write will write the packet to the underlying net.Conn.  If you are expecting another packet
+`, New: `		SetPacketHeader(header),
+		SetPacketBody(b),
+	)
+	r.copyToWriters(p)
+	return r.Write(p)
+}
+
+// replySeqNo gives the sequence number of the reply v to a packet that carried the
+// sequence number last.  some body types have special conditions
+func replySeqNo(last SequenceNumber, v EncoderDecoder) int {
+	if t, ok := v.(*AuthenReply); ok && t.Status == AuthenStatusRestart {
+		return 1
+	}
+	return int(last) + 1
+}
+
+// copyToWriters hands the clear text bytes of p to every registered writer.  a packet that
+// cannot be marshalled is skipped, and a failing writer does not stop the others
+func (r *response) copyToWriters(p *Packet) {
+	pbytes, err := p.MarshalBinary()
+	if err != nil {
+		return
+	}
+	for _, mw := range r.writers {
+		if _, err := mw.Write(r.ctx, pbytes); err != nil {
+			r.Errorf(r.ctx, "unable to write to response writer; %v", err)
+		}
+	}
+}
+
+// Write will write the packet to the underlying net.Conn.  If you are expecting another packet
+`}}})
+
 }
